@@ -239,4 +239,39 @@ theorem C40_window_after_header_sync (P : Prims) (b0 : Block) (ops : List Op) (x
     have := maxSize_pos
     omega
 
+/-! ### a candidate header synced ahead, then a DIFFERENT block committed at that height
+
+`Op.syncHeader x` indexes an arbitrary hash `x` for the next height (a validly signed candidate that `AddHeader` accepted); the commit of
+block `b` at that height calls `setHeaderIndex` again and `mapSet` OVERWRITES the entry.  `C40_agree` quantifies over all histories, so it
+covers this shape; the corollary states it explicitly, and the structural fact ties the overwrite to the source. -/
+
+/-- history `… ; syncHeader x ; commit b ; …` with `x` any hash, in particular not the hash of `b`: every query by height and by hash
+returns the committed block `b` (not the candidate), before and after any later restart -/
+theorem C40_commit_overwrites_candidate (P : Prims) (pre post : List Op) (x : Hash) (b : Block) (l : Ledger)
+    (h : runOps P (pre ++ [.syncHeader x, .commit b] ++ post) emptyLedger = some l)
+    (g : Good P (committed (pre ++ [.syncHeader x, .commit b] ++ post))) :
+    getBlockHash l b.hdr.height = some (P.hH b.hdr) ∧ getBlockByHeight l b.hdr.height = some b
+      ∧ getBlockByHash l (P.hH b.hdr) = some b ∧ getHeaderByHash l (P.hH b.hdr) = some b.hdr := by
+  have hc : committed (pre ++ [.syncHeader x, .commit b] ++ post) = committed pre ++ b :: committed post := by
+    have app : ∀ a c : List Op, committed (a ++ c) = committed a ++ committed c := by
+      intro a c
+      induction a with
+      | nil => rfl
+      | cons o r ih => cases o <;> simp [committed, ih]
+    simp [app, committed]
+  have hb : (committed (pre ++ [.syncHeader x, .commit b] ++ post))[(committed pre).length]? = some b := by
+    rw [hc]; simp
+  have hh : b.hdr.height = (committed pre).length := g.heights _ b hb
+  obtain ⟨a1, a2, a3, a4, _⟩ := C40_agree P _ l h g _ b hb
+  rw [hh]
+  exact ⟨a1, a2, a3, a4⟩
+
+/-- the index write in `setHeaderIndex` is the unguarded first statement `this.headerIndex[curHeaderHeight] = blockHash` (regenerated from
+the source): an entry left by header sync is overwritten by the commit, as `mapSet` does in the model -/
+theorem C40_source_index_overwrite : OntVerif.Gen.LedgerQuery.setHeaderIndexOverwrites = true := by decide
+
+/-- in the model the second write wins -/
+example (h : Nat) (x y : Hash) (idx : List (Nat × Hash)) : mapGet h (mapSet h y (mapSet h x idx)) = some y := by
+  rw [mapGet_mapSet]; simp
+
 end OntVerif.Props.C40
